@@ -139,7 +139,7 @@ def monC08 (h : Hist) : Option String :=
       if !isPlainGet ri || !condCall then none else
       if rp.resp.status = 304 then
         -- no-store on the request or on the 304: nothing of it is written (C06 decides that side)
-        if (freshenForbidden ri.req.header c.hdr e.resp.header rp.resp).isSome then none else
+        if (freshenForbidden ri.req.header c.hdr e.resp.header rp.resp e.resp.status true).isSome then none else
         -- freshening: the entry is written back with merged fields, same body, new timestamps
         let want := Spec.merge304 canonicalHeaderKey e.resp.header
           (match timeOfDate h rp.resp.header c.t1 with | hd => hd)
